@@ -96,6 +96,9 @@ func TestVerifRunner(t *testing.T) {
 			infos = append(infos, DeviceInfo{
 				ID:   InputID{Bus: uint16(n[0]), Vendor: uint16(n[1]), Product: uint16(n[2]), Version: uint16(n[3])},
 				Name: vunhex(toks[6]), Phys: vunhex(toks[1]), CapableTypes: caps, Uniq: uniq,
+				// the kernel numbers the handlers in the order it creates them and re-uses the numbers of unplugged ones:
+				// the same node name carries quite different handlers from one discovery to the next
+				eventName: fmt.Sprintf("event%d", len(infos)),
 			})
 		case "norm":
 			res := ""
